@@ -167,6 +167,14 @@ func init() {
 			e.spawned = nil
 			return nil
 		},
+		"vfGoInline": func(e *Exec, fn *ssa.Function, a []Value) Value {
+			if t, ok := a[0].(*Term); ok && t.IsTrue() {
+				e.extra["go_inline"] = true
+			} else {
+				delete(e.extra, "go_inline")
+			}
+			return nil
+		},
 		"vfChanUnbounded": func(e *Exec, fn *ssa.Function, a []Value) Value {
 			e.extra["chan_unbounded"] = true
 			return nil
